@@ -57,6 +57,7 @@ class ScheduleModel(object):
         self.times = dref.query_times(self.t0, self.tend + self.h)
         self.ref = dict(zip(self.times, dref.evaluate(f, signals, self.times, selfcheck=True)))
         self.nontrivial = 0
+        self.omit_empty = False
         self.exact = False
         self.outputs = set()
         # data sets that start at t0 > 0: the unrepaired monitor is documented (open finding) to behave like the shifted-start
@@ -86,6 +87,11 @@ class ScheduleModel(object):
     def apply(self, obj, hist, step):
         p = self.pos(hist)
         batches = {v: self.signals[v][p[i]:p[i] + step[i]] for i, v in enumerate(self.vs)}
+        if self.omit_empty:
+            # a variable for which nothing new arrived is not mentioned in the call at all (instead of being passed with an empty list)
+            # (only once the variable has received samples in an earlier call: a first call that does not mention a variable at all is
+            # not covered by the statement)
+            batches = {v: b for i, (v, b) in enumerate(batches.items()) if b or p[i] == 0}
         out = impl.outcome(impl.ct_update, obj, batches)
         if out[0] == 'ok':
             out = ('ok', copy.deepcopy(out[1]))
@@ -328,7 +334,7 @@ def run_shard(shard, tier, res):
         vs = sorted(F.fvars(f))
         text = 'out = ' + F.pr(f)
         res.formulas += 1
-        for sig in (long_signal_sets() if shard.get('long') else arith_signal_sets(tier) if shard.get('arith') else int_signal_sets(len(vs), tier) if shard.get('ints') else big_signal_sets(tier) if shard.get('big')
+        for si, sig in enumerate(long_signal_sets() if shard.get('long') else arith_signal_sets(tier) if shard.get('arith') else int_signal_sets(len(vs), tier) if shard.get('ints') else big_signal_sets(tier) if shard.get('big')
                     else deep_signal_sets(len(vs), tier) if shard.get('deep') else signal_sets(len(vs), tier)):
             sig = {v: sig['x' if (v == 'y' and len(vs) == 1) else v] for v in vs}
             if shard.get('long'):
@@ -347,6 +353,22 @@ def run_shard(shard, tier, res):
                 res.violation(mod, case, msg)
                 res.outcomes[msg.split(' is ')[0][:24]] += 1
             st = explore.bfs(m, 64, 20000 if tier == 'quick' else 200000, 'first' if tier == 'quick' else 'all', on_violation)
+            if len(vs) > 1 and not shard.get('long') and (si % (4 if tier == 'quick' else 2) == 0):
+                # the same schedules with variables that receive nothing left out of the call
+                m2 = ScheduleModel(f, text, vs, sig, pastify)
+                m2.omit_empty, m2.exact = True, m.exact
+
+                def on_violation2(hist, msg, sig=sig):
+                    case = {'formula': fj, 'spec': text, 'vars': vs, 'pastify': pastify, 'exact': m2.exact, 'omit_empty': True,
+                            'signals': {v: [list(p) for p in s] for v, s in sig.items()}, 'schedule': [list(st_) for st_ in hist]}
+                    res.violation(mod, case, msg + ' (variables without new samples left out of the call)')
+                    res.outcomes['omitted variable'] += 1
+                st2 = explore.bfs(m2, 64, 20000 if tier == 'quick' else 200000, 'first', on_violation2)
+                res.states += st2.states
+                res.transitions += st2.transitions
+                res.evaluations += st2.transitions
+                res.nontrivial += m2.nontrivial
+                res.flags['fixpoint' if st2.fixpoint else 'no_fixpoint'] += 1
             res.states += st.states
             res.transitions += st.transitions
             res.traces += st.executions
@@ -369,6 +391,7 @@ def check_case(case):
     sig = {v: [tuple(p) for p in s] for v, s in case['signals'].items()}
     m = ScheduleModel(f, case['spec'], case['vars'], sig, case.get('pastify', False))   # replay follows the recorded schedule
     m.exact = bool(case.get('exact'))
+    m.omit_empty = bool(case.get('omit_empty'))
     obj = m.fresh()
     hist = tuple(tuple(s) for s in case['schedule'])
     msgs = []
